@@ -110,6 +110,17 @@ func Universe(rng *rand.Rand, n int) []*triple.Triple {
 	ids := []string{VPredIDs[rng.Intn(3)], VPredIDs[rng.Intn(3)]}
 	os := VObjects()
 	objs := []*triple.Object{os[rng.Intn(len(os))], os[rng.Intn(len(os))], os[rng.Intn(len(os))], triple.NewNodeObject(ns[0])}
+	if rng.Intn(3) == 0 {
+		// objects that only differ beyond float32 / float64 / six-decimal precision:
+		// different triples that a lossy rendering would conflate
+		near := [][2]*literal.Literal{
+			{MustLit(literal.Float64, 20.25), MustLit(literal.Float64, 20.250000001)},
+			{MustLit(literal.Int64, int64(9007199254740992)), MustLit(literal.Int64, int64(9007199254740993))},
+			{MustLit(literal.Float64, 1.0000001), MustLit(literal.Float64, 1.0000002)},
+			{MustLit(literal.Text, "a"), MustLit(literal.Text, "a ")},
+		}[rng.Intn(4)]
+		objs = append(objs, triple.NewLiteralObject(near[0]), triple.NewLiteralObject(near[1]))
+	}
 	for tries := 0; len(res) < n && tries < 1000; tries++ {
 		id := ids[rng.Intn(len(ids))]
 		var p *predicate.Predicate
